@@ -3,6 +3,7 @@ from typing import Dict
 from openpyxl.utils import column_index_from_string
 
 from excel2pycl.src.cell import Cell
+from excel2pycl.src.exceptions import E2PyclCellException
 
 
 def handle_cell(cell: Cell, titles: Dict[str, int]):
@@ -10,13 +11,20 @@ def handle_cell(cell: Cell, titles: Dict[str, int]):
         return
 
     if isinstance(cell.title, str):
+        if cell.title not in titles:
+            raise E2PyclCellException(f'There is no sheet with the title `{cell.title}`')
         cell.title = titles[cell.title]
 
     if isinstance(cell.column, str):
-        cell.column = column_index_from_string(cell.column) - 1
+        try:
+            cell.column = column_index_from_string(cell.column) - 1
+        except ValueError as error:
+            raise E2PyclCellException(f'`{cell.column}` is not a column name') from error
 
     if isinstance(cell.row, str):
         if cell.row:
+            if int(cell.row) < 1:
+                raise E2PyclCellException('Row numbers start at 1')
             cell.row = int(cell.row) - 1
         else:
             cell.row = None
